@@ -53,7 +53,7 @@ def instances(tier, seed):
         for method, intg in (('MS', 'rk'), ('SS', 'expl_euler'), ('DC', None)):
             ms = models() + ([scaled_dae()] if method == 'DC' else [])
             for s in ms:
-                for when in ('before', 'after', 'edited'):
+                for when in ('before', 'after', 'edited', 'load-edit'):
                     h = H[n % len(H)]
                     N = [2, 3][n % 2]
                     M = [1, 2][(n // 2) % 2]
@@ -121,6 +121,33 @@ def run(item):
     finally:
         if os.path.exists(path):
             os.remove(path)
+    if when == 'load-edit':
+        # the loaded OCP is a working specification: the same edits, made through its own accessors before its first
+        # transcription, must be accepted and mean the same as on the original
+        edits = []
+        gp = [p_ for p_ in spec.params if p_.grid == '' and p_.n == 1 and p_.name not in ('pt0', 'pT')]
+        if gp:
+            idx = [q.name for q in spec.params if q.grid == ''].index(gp[0].name)
+            edits.append(('set_value', lambda o, idx=idx: o.set_value(list(o.parameters[''])[idx], 1.75)))
+        edits.append(('set_initial', lambda o: o.set_initial(list(o.states)[0], 3.5)))
+        edits.append(('subject_to', lambda o: o.subject_to(list(o.states)[0] <= 11)))
+        for name, lst in (('states', ocp2.states), ('controls', ocp2.controls), ('algebraics', ocp2.algebraics), ("parameters['']", ocp2.parameters['']),
+                          ("parameters['control']", ocp2.parameters['control']), ("variables['']", ocp2.variables['']), ("variables['control']", ocp2.variables['control'])):
+            for e_ in list(lst):
+                if e_ not in lst:
+                    viol.append({'property': PROP, 'key': 'accessor-membership|%s|save-%s' % (cfg.method, when), 'label': name, 'cfg': repr(cfg), 'spec': spec.note,
+                                 'detail': 'after load, an element of ocp.%s is not recognised as a member of ocp.%s' % (name, name)})
+                    break
+        for nm, ed in edits:
+            with quiet():
+                ed(b.ocp)
+                try:
+                    ed(ocp2)
+                except Exception as e:
+                    viol.append({'property': PROP, 'key': 'loaded-not-editable:%s|%s|save-%s' % (nm, cfg.method, when), 'label': nm, 'cfg': repr(cfg), 'spec': spec.note,
+                                 'detail': '%s through the accessors of the loaded OCP raised (%s) although the same edit is accepted by the original' % (nm, str(e).strip().splitlines()[-1][:160])})
+        spec = copy.deepcopy(spec)
+        spec.cons = list(spec.cons) + [Con('<=', X(0), 11)]
     # the original can still be transcribed after saving
     O2 = Inst(spec, cfg, seed=item.get('seed', 0), built=b, solver=False)
     ch = Checker(O2)
